@@ -38,7 +38,7 @@ def natsStr (l : List Nat) : String := if l.isEmpty then "-" else ",".intercalat
 
 def dump (ns : Nat) (e : Ep) : String :=
   let sr := if e.sd == 0 then "-" else if e.sd == 1 then "w" else "ok"
-  s!"st={e.st} ws={bs e.wS} wa={bs e.wSA} wc={bs e.wSC} scp={bs e.scp} t2={e.t2} ack={e.ack} pn={e.snd.pend.length} if={e.inflight} cum={e.snd.cum} pl={e.rcv.pl} rq={natsStr (e.rcv.rq.mergeSort (fun a b => decide (a ≤ b)))} dead={bs e.dead} sr={sr} rx={e.rcv.store.length + e.rcv.rlog.length} re={if e.dead then ns else 0}"
+  s!"st={e.st} ws={bs e.wS} wa={bs e.wSA} wc={bs e.wSC} scp={bs e.scp} t2={e.t2} ack={e.ack} pn={e.snd.pend.length} if={e.inflight} cum={e.snd.cum} pl={e.rcv.pl} rq={natsStr (sortNat e.rcv.rq)} dead={bs e.dead} sr={sr} rx={e.rcv.store.length + e.rcv.rlog.length} re={if e.dead then ns else 0}"
 
 def chunkStr : Chunk → String
   | .data t m s k => s!"D{t}.{m}.{s}.{k}"
